@@ -147,8 +147,9 @@ class InvLoop:
         lname = f'loop{fr.loop_ordinals.get(id(s))}'
         # ---- entry
         j0 = IntVal(0)
+        entry_facts = list(self.lemmas(self, p, j0)) if (self.lemmas and is_for) else []     # base-case equations of the spec folds
         for nm, g, o_ in self._inv_list(p, j0):
-            eng.add_obligation(f'{where}/{lname}/entry.{nm}', p.pc, g, 'loop', p, {'lemmas': (o_ or {}).get('lemmas')})
+            eng.add_obligation(f'{where}/{lname}/entry.{nm}', list(p.pc) + entry_facts, g, 'loop', p, {'lemmas': (o_ or {}).get('lemmas')})
         # ---- preserve
         ph = self.havoc(eng, p, s, fr, f'{lname}h')
         j = fresh(f'{lname}_j', IntSort())
@@ -203,6 +204,8 @@ class InvLoop:
         else:
             for nm, g, _o in self._inv_list(pe, None):
                 pe.pc.append(g)
+            if self.lemmas:
+                pe.pc.extend(self.lemmas(self, pe, None))       # defining equations of the spec functions at the exit state
             out = []
             for q, c in eng.ev_cond(pe, s.test, fr):
                 if c is True: continue
